@@ -130,12 +130,18 @@ class Geometry:
             self.cached_voxel_volume = self.voxel_volume * scaling
 
         # ! ---- Perform spatial integration
-        if isinstance(data, np.ndarray):
-            weighted_sum = np.multiply(self.cached_voxel_volume, data)
-        elif isinstance(data, darsia.Image):
-            weighted_sum = np.multiply(self.cached_voxel_volume, data.img)
-        else:
+        if not isinstance(data, (np.ndarray, darsia.Image)):
             raise ValueError("Data type not supported.")
+
+        # Spatially varying voxel volumes need to be broadcasted over the time and
+        # data axes of the data.
+        voxel_volume = self.cached_voxel_volume
+        if isinstance(voxel_volume, np.ndarray):
+            num_extra_axes = len(fetched_data.shape) - len(voxel_volume.shape)
+            voxel_volume = voxel_volume.reshape(
+                voxel_volume.shape + num_extra_axes * (1,)
+            )
+        weighted_sum = np.multiply(voxel_volume, fetched_data)
         for i in range(self.space_dim):
             weighted_sum = np.sum(weighted_sum, axis=0)
         return weighted_sum
